@@ -7,6 +7,7 @@
 mod checksum;
 mod fsmodel;
 mod path;
+mod crc;
 mod rng;
 mod segments;
 mod tx;
@@ -42,6 +43,7 @@ fn main() {
                 "path" => path::gen(seed, tier, &mut w, &mut stats),
                 "udp" => udp::gen(seed, tier, &mut w, &mut stats),
                 "fsmodel" => fsmodel::gen(seed, tier, &mut w, &mut stats),
+                "crc" => crc::gen(seed, tier, &mut w, &mut stats),
                 _ => panic!("unknown component {comp}"),
             }
             w.flush().unwrap();
@@ -61,6 +63,7 @@ fn main() {
                 "path" => path::run(&ops, &mut out, &mut orc),
                 "udp" => udp::run(&ops, &mut out, &mut orc),
                 "fsmodel" => fsmodel::run(&ops, &mut out, &mut orc),
+                "crc" => crc::run(&ops, &mut out, &mut orc),
                 _ => panic!("unknown component {comp}"),
             }
             out.flush().unwrap();
